@@ -111,8 +111,12 @@ def dir_case(task):
     try:
         param = etgen.write_sim(root, spec)
         for (rv, ri, rl, restart, extra) in reqs:
+            # the printing options alternate from read to read (output is
+            # captured): they must not change what is returned
             kw = dict(it=list(ri), vars=list(rv), rl=rl, restart=restart,
-                      split_per_it=False, skip_last=False, verbose=False)
+                      split_per_it=False, skip_last=False,
+                      verbose=out['reads'] % 2 == 1,
+                      veryverbose=out['reads'] % 4 == 3)
             kw.update(extra)
             rv0, ri0, p0 = list(rv), list(ri), dict(param)
             out['reads'] += 1
